@@ -264,16 +264,28 @@ impl Check for Lifecycle {
         let msgs = self.msgs(bytes);
         let (expected, status, reached_main, interesting) = model(&msgs);
         let mut r = CaseResult::new(fnv(format!("{:?}", describe_msgs(&msgs)).as_bytes()));
-        let chunks = if bytes.first().map_or(false, |b| b % 2 == 0) { session::chunks_of(&msgs.iter().map(|m| m.json.clone()).collect::<Vec<_>>()) } else { session::one_chunk(&msgs.iter().map(|m| m.json.clone()).collect::<Vec<_>>()) };
-        let mut o = session::run(&chunks, &RunOpts { close_stdin: true, timeout_ms: WATCHDOG_MS, read_delay_ms: 0 });
+        // framing: one write per message or one write for all; in random sessions two frames in
+        // five carry a Content-Type header (before or after Content-Length)
+        let frames: Vec<Vec<u8>> = msgs.iter().map(|m| if self.explicit { session::frame(&m.json) } else { super::c19::framed(&m.json) }).collect();
+        let chunks: Vec<Chunk> = if bytes.first().map_or(false, |b| b % 2 == 0) {
+            frames.into_iter().map(|f| Chunk { bytes: f, sleep_before_ms: 0 }).collect()
+        } else {
+            vec![Chunk { bytes: frames.concat(), sleep_before_ms: 0 }]
+        };
+        // when the session contains an `exit` the server acts on, the client's end of the pipe
+        // stays open in half of the cases: `exit` alone must end the process
+        let keep_open = status.is_some() && fnv(bytes) % 2 == 1;
+        let opts = RunOpts { close_stdin: !keep_open, timeout_ms: WATCHDOG_MS, read_delay_ms: 0 };
+        let mut o = session::run(&chunks, &opts);
         let mut tries = 1;
         while o.timed_out && tries < 3 {
-            o = session::run(&chunks, &RunOpts { close_stdin: true, timeout_ms: WATCHDOG_MS, read_delay_ms: 0 });
+            o = session::run(&chunks, &opts);
             tries += 1;
         }
         let detail = |o: &Outcome| json!({ "session": describe_msgs(&msgs), "exit_code": o.exit_code, "stderr": clip(&o.stderr), "responses": o.responses().iter().map(|r| clip(&r.to_string())).collect::<Vec<_>>() });
         if o.timed_out {
-            r.fail("does-not-terminate", format!("the server is still running {} ms after the end of its input (3 attempts)", WATCHDOG_MS), detail(&o));
+            let what = if keep_open { "after `exit` while the client keeps its end of the pipe open" } else { "after the end of its input" };
+            r.fail(if keep_open { "does-not-terminate-on-exit" } else { "does-not-terminate" }, format!("the server is still running {} ms {} (3 attempts)", WATCHDOG_MS, what), detail(&o));
             return r;
         }
         if let Some((sig, what)) = compare_responses(&o, &expected) {
@@ -295,6 +307,9 @@ impl Check for Lifecycle {
         r.nontrivial = reached_main && interesting;
         if reached_main {
             r.label("reaches-main-phase");
+        }
+        if keep_open {
+            r.label("stdin-kept-open-after-exit");
         }
         if status.is_some() {
             r.label(format!("exit:{}", status.unwrap()));
